@@ -22,7 +22,7 @@ pub fn sim_families(prop: &str) -> Vec<&'static str> {
         "C08" => vec!["life", "prefill", "redirect", "mn", "dag", "misc"],
         "C09" => vec![
             "life", "dag", "prefill", "redirect", "reject", "mn", "maxfails", "open", "crashlimit", "timelimit",
-            "wait", "misc",
+            "misc", // ("wait" with its three overlapping clients only in C13's quick tier and in thorough)
         ],
         "C13" => vec!["open", "life", "maxfails", "wait"],
         "C14" => vec!["maxfails"],
@@ -174,7 +174,7 @@ pub fn check_sim(prop: &str, tier: &str) -> i32 {
     // restart halves (journal engine) of the properties that quantify over crash points
     if matches!(prop, "C03" | "C06" | "C07" | "C08" | "C09" | "C13" | "C14") {
         let jbudget = if quick { Duration::from_secs(40) } else { Duration::from_secs(15 * 60) };
-        let (found, stats) = crate::journal::run(tier, Instant::now() + jbudget);
+        let (found, stats) = crate::journal::run_with(tier, Instant::now() + jbudget, &props, check_panics);
         machinery.extend(stats.machinery.iter().cloned());
         crate::journal::fill_report(&mut report, prop, found, &stats);
     }
@@ -257,7 +257,8 @@ pub fn replay_file(path: &str) -> i32 {
             let prop = v["property"].as_str().unwrap_or("");
             let props: Vec<Prop> = Prop::parse(prop).into_iter().collect();
             let found = replay_with_monitors(&sc, &props, &history, true);
-            let sig = v["signature"].as_str().unwrap_or("");
+            // (violations found by an exploration from a restored state carry this marker in their site)
+            let sig = v["signature"].as_str().unwrap_or("").trim_end_matches(" [after restart]");
             let hit = found.iter().any(|x| x.signature() == sig);
             for f in &found {
                 println!("FOUND {} : {}", f.signature(), f.detail);
